@@ -25,7 +25,11 @@ def run(tier, seed):
     nmod = int(os.environ.get("VERIF_NMOD", 3 if quick else 20))
     kcap = 24 if quick else 120
     prof = gen.profile(max_len=8)
-    builds = harness.make_many(tc, [seed * 1000 + 500 + i for i in range(nmod)], prof, atoms=9, composites=9)
+    seeds = [seed * 1000 + 500 + i for i in range(nmod)]
+    builds = harness.make_many(tc, seeds[:-1], prof, atoms=9, composites=9)
+    # one module with long strings: encodings span several flushes of the PER/OER staging buffers, open-type
+    # bodies (extension additions) exceed one flush
+    builds += harness.make_many(tc, seeds[-1:], gen.profile(max_len=70), atoms=9, composites=9)
     sites = set()
     for b in builds:
         if b.exe is None:
@@ -51,7 +55,7 @@ def run(tier, seed):
             if r is None or r.status != "ok" or len(r.events) < 6 or r.events[0].get("rc") != "OK":
                 continue
             items.append((tname, "BER", ref, int(r.events[0].get("nalloc", 0)), ref))
-            encn[(tname, ref)] = {s: (int(e.get("nalloc", 0)), e.get("out"), e.get("rc")) for s, e in zip(ENCS, r.events[1:6])}
+            encn[(tname, ref)] = {s: (int(e.get("nalloc", 0)), e.get("out"), e.get("rc"), int(e.get("calls", 0) or 0)) for s, e in zip(ENCS, r.events[1:6])}
             for s, es in (("OER", "OER"), ("UPER", "UPER"), ("BXER", "BXER")):
                 e = r.events[1 + ENCS.index(es)]
                 if int(e.get("rc", -1)) >= 0 and e.get("out") not in (None, "q", "trunc"):
@@ -97,13 +101,14 @@ def run(tier, seed):
             # C: encoders under OOM and with a failing callback (only once per value: on the BER item)
             if syn == "BER":
                 for es in ENCS:
-                    ne, eout, erc = encn[(tname, ref)][es]
+                    ne, eout, erc = encn[(tname, ref)][es][:3]
                     for k in range(1, min(ne, kcap) + 1):
                         cid += 1
                         cases.append(drv.Case(cid, ["dec s=0 t=%s syn=BER in=%s" % (tname, drv.hx(ref)), "oom k=%d" % k,
                                                     "enc s=0 syn=%s" % es, "enc s=0 syn=%s" % es, "free s=0"]))
                         meta[cid] = ("oom-enc", tname, es, ref, k, eout, erc)
-                    for i in (0, 1, 2, 5):
+                    ncalls = encn[(tname, ref)][es][3]
+                    for i in sorted(set([0, 1, 2, 5]) | set(range(min(ncalls + 1, 16)))):
                         cid += 1
                         cases.append(drv.Case(cid, ["dec s=0 t=%s syn=BER in=%s" % (tname, drv.hx(ref)),
                                                     "enc s=0 syn=%s cbfail=%d" % (es, i), "enc s=0 syn=%s" % es, "free s=0"]))
